@@ -108,10 +108,10 @@ def replay_behaviour(ctx, beh, with_u):
     for act, st in beh[1:]:
         call = st['ops'][-1]
         obs = st['obs']
-        word.append(call['call'] + (':' + gate_str(call['g']) if call['call'] in ('add', 'reuse') else ':%s' % (call['src'] or call['d'])))
+        word.append(call['call'] + (':' + gate_str(call['g']) if call['call'] in ('add', 'reuse', 'addP', 'setP') else ':%s' % (call['src'] or call['d'])))
         data = dict(word=list(word))
         try:
-            apply_call(circ, call, prev_gates)
+            apply_call(circ, dict(call, new_gates=st['gates']), prev_gates)
             n = circ.num_qubit
             if n != obs['n']:
                 ctx.violation('C03:Circuit.num_qubit:register-size', 'register size differs from 1 + largest index in use', data)
